@@ -46,7 +46,7 @@ def _init_worker():
 def _one(job):
     seed, engine, idx, keep_sample = job
     rs = mix(seed, ENGINE_OFFSET[engine] + idx)
-    src = GenSource(rs, engine, runner.BOOT['steps'])
+    src = GenSource(rs, engine, runner.BOOT['steps'], runner.BOOT['funcs'])
     try:
         r = runner.run_plan(src)
     except runner.HarnessError as e:
